@@ -21,11 +21,6 @@ without=$(cargo test --offline --test seeded_demo 2>&1 | grep -E "^test result" 
 git apply $dst/patch.diff
 echo "suite with change: $suite"; echo "demo with change: $with"; echo "demo without: $without"
 res=""
-for p in "$@"; do
-  line=$(cd /verif && VERIF_REPO=$wt ./check $p 2>&1 | grep -E "^VIOLATION|^$p quick" | tr '\n' ' ')
-  echo "check $p: $line"
-  res="$res\"$p\": \"$(echo $line | sed 's/"/\\"/g')\", "
-done
 cat > $dst/meta.json <<EOT
 {
  "breaks_property": "$1",
@@ -40,6 +35,8 @@ cat > $dst/meta.json <<EOT
  "checks_run_against_it": { ${res%, } }
 }
 EOT
-rm -rf /verif/build/evidence_alt_*/replay
 cd /; git -C /repo worktree remove --force $wt; rm -rf $out /tmp/mut/${id}_demo.rs /tmp/mut/$id.prompt
 echo "stored in $dst"
+# the checks run against a fresh worktree of the CURRENT /repo HEAD with the stored change applied (the agent's
+# worktree may be based on an older HEAD than the one the live Coq models describe)
+/verif/tools/recheck_seed.sh $name "$@"
